@@ -26,19 +26,40 @@ RESERVED = {'end', 'from', 'at', 'in', 'fun', 'let', 'open', 'then', 'else', 'do
             'prefix', 'infix', 'local', 'if', 'def', 'theorem', 'instance', 'structure', 'class', 'namespace', 'section',
             'variable', 'import', 'return', 'for', 'mut', 'unless', 'try', 'catch', 'finally', 'macro', 'syntax', 'notation'}
 
-EXC = {'ValueError': 'valueError', 'IndexError': 'indexError', 'TypeError': 'typeError', 'HPACKDecodingError': 'hpackDecodingError',
+EXC = {'UnicodeDecodeError': 'unicodeDecodeError', 'ValueError': 'valueError', 'IndexError': 'indexError', 'TypeError': 'typeError', 'HPACKDecodingError': 'hpackDecodingError',
        'InvalidTableIndex': 'invalidTableIndex', 'InvalidTableIndexError': 'invalidTableIndex',
        'InvalidTableSizeError': 'invalidTableSizeError', 'OversizedHeaderListError': 'oversizedHeaderListError'}
 
 LEAN_T = {'int': 'Int', 'bytes': 'List UInt8', 'listint': 'List Int', 'bool': 'Bool', 'unit': 'Unit',
           'entry': '(List UInt8 × List UInt8)', 'listentry': 'List (List UInt8 × List UInt8)',
-          'triple': '(Int × Int × Int)', 'listtriple': 'List (Int × Int × Int)'}
+          'triple': '(Int × Int × Int)', 'listtriple': 'List (Int × Int × Int)',
+          'header': 'Py.Header', 'listheader': 'List Py.Header', 'none': 'Unit'}
 
 
 def lean_t(ty):
     if ty.startswith('self:'):
         return ty[5:]
+    if ty.startswith('obj:'):
+        return ty[4:]
+    if ty.startswith('tuple:'):
+        return '(' + ' × '.join(lean_t(x) for x in ty[6:].split(',')) + ')'
     return LEAN_T[ty]
+
+
+def own_call(cx, meth, args_text):
+    """lines that call a method of the object itself: the object comes back updated"""
+    tt = cx.fresh()
+    lean = '%s.%s' % (cx.cls['name'], lname_m(meth).replace('.setter', '_set').replace('.getter', '_get'))
+    return ['let %s_r ← %s fuel self %s' % (tt, lean, ' '.join(args_text)), 'let self := %s_r.1' % tt, 'let %s := %s_r.2' % (tt, tt)], tt
+
+
+def sub_call(cx, field, ocls, meth, args_text):
+    """lines that call a method of a sub-object held in a field: the field is updated on return and on exception"""
+    tt = cx.fresh()
+    lean = '%s.%s' % (ocls, lname_m(meth).replace('.setter', '_set').replace('.getter', '_get'))
+    return ['let %s_r ← Py.liftSub self (fun s x => { s with %s := x }) (%s fuel self.%s %s)' % (
+        tt, fname_(field), lean, fname_(field), ' '.join(args_text)), 'let self := %s_r.1' % tt, 'let %s := %s_r.2' % (tt, tt)], tt
+
 
 
 def fname_(attr):
@@ -71,10 +92,27 @@ class Ctx:
         return 't%d' % self.tmp
 
 
+def B(cx, var, rhs):
+    """a monadic bind of a pure partial operation; inside a method the exception takes the current object with it"""
+    if getattr(cx, 'method', False):
+        return 'let %s ← Py.liftR self (%s)' % (var, rhs)
+    return 'let %s ← %s' % (var, rhs)
+
+
+def ERR(cx, exc):
+    return '.error (.%s, self)' % exc if getattr(cx, 'method', False) else '.error .%s' % exc
+
+
+def MON(cx):
+    return 'RS %s' % cx.cls['name'] if getattr(cx, 'method', False) else 'R'
+
+
 # ------------------------------------------------------------------------------------------------ expressions
 def expr(e, env, cx):
     """-> (binds: [lean line], text, type)"""
     if isinstance(e, ast.Constant):
+        if e.value is None:
+            return [], '()', 'none'
         if isinstance(e.value, bool):
             return [], 'true' if e.value else 'false', 'bool'
         if isinstance(e.value, int):
@@ -95,7 +133,7 @@ def expr(e, env, cx):
                 except Unsupported:
                     continue
                 if ty == 'int' and v.conversion == -1:
-                    bs += b + ['let _ ← Py.fmtInt %s' % t]
+                    bs += b + [B(cx, '_', 'Py.fmtInt %s' % t)]
         return bs, '()', 'str'
     if isinstance(e, ast.Name):
         if e.id in env:
@@ -106,6 +144,20 @@ def expr(e, env, cx):
                 cx.used_consts.append(e.id)
             return [], 'c_' + e.id, 'int' if isinstance(v, int) else ('listtriple' if v == 'TRIPLES' else 'listint')
         raise Unsupported('name %s' % e.id)
+    if isinstance(e, ast.Constant) and e.value is None:
+        return [], '()', 'none'
+    # self.<sub-object>.<property>
+    if isinstance(e, ast.Attribute) and _is_self_attr(e.value) and cx.cls and cx.cls['fields'].get(e.value.attr, '').startswith('obj:'):
+        ocls = cx.cls['fields'][e.value.attr][4:]
+        ext = cx.cls.get('extern', {}).get(ocls, {})
+        if e.attr in ext.get('properties', {}):
+            lines, tt = sub_call(cx, e.value.attr, ocls, e.attr + '.getter', [])
+            return lines, tt, ext['properties'][e.attr]
+        raise Unsupported('attribute %s of %s' % (e.attr, ocls))
+    # self.<own property>
+    if _is_self_attr(e) and cx.cls and e.attr in cx.cls.get('properties', {}):
+        lines, tt = own_call(cx, e.attr + '.getter', [])
+        return lines, tt, cx.cls['properties'][e.attr]
     if isinstance(e, ast.Attribute) and isinstance(e.value, ast.Name):
         if e.value.id == 'self' and env.get('self', '').startswith('self:') and cx.cls and e.attr in cx.cls['fields']:
             return [], 'self.' + fname_(e.attr), cx.cls['fields'][e.attr]
@@ -123,7 +175,7 @@ def expr(e, env, cx):
         b2, t2, ty2 = expr(e.right, env, cx)
         if isinstance(e.op, ast.Mod) and ty1 == 'str':
             if ty2 == 'int':
-                return b1 + b2 + ['let _ ← Py.fmtInt %s' % t2], '()', 'str'
+                return b1 + b2 + [B(cx, '_', 'Py.fmtInt %s' % t2)], '()', 'str'
             raise Unsupported('string formatting of ' + ty2)
         if ty1 != 'int' or ty2 != 'int':
             raise Unsupported('binary operator on %s, %s' % (ty1, ty2))
@@ -134,13 +186,38 @@ def expr(e, env, cx):
             return b1 + b2, '(Py.%s %s %s)' % ({'BitAnd': 'band', 'BitOr': 'bor'}[op], t1, t2), 'int'
         if op in ('LShift', 'RShift'):
             t = cx.fresh()
-            return b1 + b2 + ['let %s ← Py.%s %s %s' % (t, 'shl' if op == 'LShift' else 'shr', t1, t2)], t, 'int'
+            return b1 + b2 + [B(cx, t, 'Py.%s %s %s' % ('shl' if op == 'LShift' else 'shr', t1, t2))], t, 'int'
         raise Unsupported('operator ' + op)
     if isinstance(e, ast.UnaryOp) and isinstance(e.op, ast.USub):
         b, t, ty = expr(e.operand, env, cx)
         if ty != 'int':
             raise Unsupported('unary minus on ' + ty)
         return b, '(- %s)' % t, 'int'
+    if isinstance(e, ast.Subscript) and isinstance(e.slice, ast.Slice):
+        bv, tv, tyv = expr(e.value, env, cx)
+        if tyv != 'bytes' or e.slice.step is not None:
+            raise Unsupported('slice of ' + tyv)
+        t = cx.fresh()
+        if e.slice.lower is not None and e.slice.upper is None:
+            bl, tl, tyl = expr(e.slice.lower, env, cx)
+            return bv + bl + [B(cx, t, 'Py.sliceFrom %s %s' % (tv, tl))], t, 'bytes'
+        if e.slice.lower is not None and e.slice.upper is not None:
+            bl, tl, tyl = expr(e.slice.lower, env, cx)
+            bu, tu, tyu = expr(e.slice.upper, env, cx)
+            return bv + bl + bu + [B(cx, t, 'Py.slice %s %s %s' % (tv, tl, tu))], t, 'bytes'
+        raise Unsupported('slice form')
+    if isinstance(e, ast.Subscript) and isinstance(e.slice, ast.Constant) and isinstance(e.slice.value, int):
+        bv, tv, tyv = expr(e.value, env, cx)
+        i = e.slice.value
+        if tyv == 'entry' and i in (0, 1):
+            return bv, '%s.%d' % (tv, i + 1), 'bytes'
+        if tyv == 'header' and i in (0, 1):
+            return bv, ('%s.1' % tv) if i == 0 else ('%s.2.1' % tv), 'bytes'
+        if tyv.startswith('tuple:'):
+            parts = tyv[6:].split(',')
+            if 0 <= i < len(parts):
+                proj = '.' + '.'.join(['2'] * i + (['1'] if i < len(parts) - 1 else []))
+                return bv, tv + proj, parts[i]
     if isinstance(e, ast.Subscript):
         bv, tv, tyv = expr(e.value, env, cx)
         bi, ti, tyi = expr(e.slice, env, cx)
@@ -148,14 +225,16 @@ def expr(e, env, cx):
             raise Unsupported('subscript with ' + tyi)
         t = cx.fresh()
         if tyv == 'bytes':
-            return bv + bi + ['let %s ← Py.getByte %s %s' % (t, tv, ti)], t, 'int'
+            return bv + bi + [B(cx, t, 'Py.getByte %s %s' % (tv, ti))], t, 'int'
         if tyv == 'listint':
-            return bv + bi + ['let %s ← Py.listGet %s %s' % (t, tv, ti)], t, 'int'
+            return bv + bi + [B(cx, t, 'Py.listGet %s %s' % (tv, ti))], t, 'int'
         if tyv == 'listentry':
-            return bv + bi + ['let %s ← Py.seqGet %s %s' % (t, tv, ti)], t, 'entry'
+            return bv + bi + [B(cx, t, 'Py.seqGet %s %s' % (tv, ti))], t, 'entry'
         if tyv == 'listtriple':
-            return bv + bi + ['let %s ← Py.seqGet %s %s' % (t, tv, ti)], t, 'triple'
+            return bv + bi + [B(cx, t, 'Py.seqGet %s %s' % (tv, ti))], t, 'triple'
         raise Unsupported('subscript of ' + tyv)
+    if isinstance(e, ast.List) and not e.elts and getattr(cx, 'empty_list_type', None):
+        return [], '([] : %s)' % lean_t(cx.empty_list_type), cx.empty_list_type
     if isinstance(e, ast.List):
         bs, ts = [], []
         for x in e.elts:
@@ -170,15 +249,107 @@ def expr(e, env, cx):
             b, t, ty = expr(x, env, cx)
             bs += b; ts.append(t); tys.append(ty)
         return bs, '(' + ', '.join(ts) + ')', 'tuple:' + ','.join(tys)
+    if isinstance(e, ast.ListComp) and len(e.generators) == 1 and not e.generators[0].ifs and isinstance(e.generators[0].target, ast.Name):
+        g = e.generators[0]
+        bq, tq, tyq = expr(g.iter, env, cx)
+        if tyq != 'listheader':
+            raise Unsupported('comprehension over ' + tyq)
+        env2 = dict(env); env2[g.target.id] = 'header'
+        cx2_method = getattr(cx, 'method', False)
+        cx.method = False                      # the element function is a plain function: its binds are R-valued
+        try:
+            be, te, tye = expr(e.elt, env2, cx)
+        finally:
+            cx.method = cx2_method
+        if tye != 'header':
+            raise Unsupported('comprehension producing ' + tye)
+        t = cx.fresh()
+        body = ' '.join(x + ';' for x in be) + ' .ok ' + te if be else '.ok ' + te
+        return bq + [B(cx, t, 'Py.listMapM (fun %s => do %s) %s' % (lname(g.target.id), body, tq))], t, 'listheader'
+    # header.__class__(a, b): same class as `header`
+    if isinstance(e, ast.Call) and isinstance(e.func, ast.Attribute) and e.func.attr == '__class__' and len(e.args) == 2:
+        bh, th, tyh = expr(e.func.value, env, cx)
+        if tyh != 'header':
+            raise Unsupported('__class__ of ' + tyh)
+        b1, t1, ty1 = expr(e.args[0], env, cx)
+        b2, t2, ty2 = expr(e.args[1], env, cx)
+        if ty1 != 'bytes' or ty2 != 'bytes':
+            raise Unsupported('header of %s, %s' % (ty1, ty2))
+        return bh + b1 + b2, '(%s, %s, %s.2.2)' % (t1, t2, th), 'header'
+    # b.decode("utf-8")
+    if isinstance(e, ast.Call) and isinstance(e.func, ast.Attribute) and e.func.attr == 'decode' and len(e.args) == 1 \
+            and isinstance(e.args[0], ast.Constant) and e.args[0].value == 'utf-8':
+        b, t, ty = expr(e.func.value, env, cx)
+        if ty != 'bytes':
+            raise Unsupported('decode of ' + ty)
+        tt = cx.fresh()
+        return b + [B(cx, tt, 'Py.utf8Decode Impl.validUtf8 %s' % t)], tt, 'bytes'
+    # self.<sub-object>.<method>(...)
+    if isinstance(e, ast.Call) and isinstance(e.func, ast.Attribute) and _is_self_attr(e.func.value) and cx.cls \
+            and cx.cls['fields'].get(e.func.value.attr, '').startswith('obj:'):
+        ocls = cx.cls['fields'][e.func.value.attr][4:]
+        ext = cx.cls.get('extern', {}).get(ocls, {})
+        if e.func.attr not in ext.get('methods', {}):
+            raise Unsupported('method %s of %s' % (e.func.attr, ocls))
+        ptys, rty = ext['methods'][e.func.attr]
+        bs, ts = [], []
+        for a, pt in zip(e.args, ptys):
+            b, t, ty = expr(a, env, cx)
+            if ty != pt:
+                raise Unsupported('argument of %s.%s: %s where %s is expected' % (ocls, e.func.attr, ty, pt))
+            bs += b; ts.append(t)
+        if len(e.args) != len(ptys) or e.keywords:
+            raise Unsupported('arity of %s.%s' % (ocls, e.func.attr))
+        lines, tt = sub_call(cx, e.func.value.attr, ocls, e.func.attr, ts)
+        return bs + lines, tt, rty
+    # self.<own method>(...)
+    if isinstance(e, ast.Call) and _is_self_attr(e.func) and cx.cls and e.func.attr in cx.cls['methods']:
+        ptys, rty = cx.cls['methods'][e.func.attr]
+        pnames = cx.cls.get('method_params', {}).get(e.func.attr, [])
+        vals = list(e.args) + [None] * (len(ptys) - len(e.args))
+        for kw in e.keywords:
+            if kw.arg not in pnames:
+                raise Unsupported('keyword ' + str(kw.arg))
+            vals[pnames.index(kw.arg)] = kw.value
+        if any(v is None for v in vals) or len(vals) != len(ptys):
+            raise Unsupported('arity of self.' + e.func.attr)
+        bs, ts = [], []
+        for a, pt in zip(vals, ptys):
+            b, t, ty = expr(a, env, cx)
+            if ty != pt:
+                raise Unsupported('argument of self.%s: %s where %s is expected' % (e.func.attr, ty, pt))
+            bs += b; ts.append(t)
+        lines, tt = own_call(cx, e.func.attr, ts)
+        return bs + lines, tt, rty
     if isinstance(e, ast.Call) and isinstance(e.func, ast.Name):
         f = e.func.id
+        if f in ('HeaderTuple', 'NeverIndexedHeaderTuple') and not e.keywords:
+            never = 'true' if f == 'NeverIndexedHeaderTuple' else 'false'
+            if len(e.args) == 1 and isinstance(e.args[0], ast.Starred):
+                b, t, ty = expr(e.args[0].value, env, cx)
+                if ty != 'entry':
+                    raise Unsupported('%s(*%s)' % (f, ty))
+                return b, '(%s.1, %s.2, %s)' % (t, t, never), 'header'
+            if len(e.args) == 2:
+                b1, t1, ty1 = expr(e.args[0], env, cx)
+                b2, t2, ty2 = expr(e.args[1], env, cx)
+                if ty1 == 'bytes' and ty2 == 'bytes':
+                    return b1 + b2, '(%s, %s, %s)' % (t1, t2, never), 'header'
+            raise Unsupported('call of ' + f)
+        if f == 'bool' and len(e.args) == 1 and not e.keywords:
+            b, c = cond(e.args[0], env, cx)
+            return b, '(decide %s)' % c, 'bool'
+        if f == 'memoryview' and len(e.args) == 1:
+            b, t, ty = expr(e.args[0], env, cx)
+            if ty == 'bytes':
+                return b, t, 'bytes'
         if f in ('bytearray', 'bytes') and not e.args and not e.keywords:
             return [], '([] : List UInt8)', 'bytes'
         if f in ('bytearray', 'bytes') and len(e.args) == 1 and not e.keywords:
             b, t, ty = expr(e.args[0], env, cx)
             if ty == 'listint':
                 tt = cx.fresh()
-                return b + ['let %s ← Py.bytesOfInts %s' % (tt, t)], tt, 'bytes'
+                return b + [B(cx, tt, 'Py.bytesOfInts %s' % t)], tt, 'bytes'
             if ty == 'bytes':
                 return b, t, 'bytes'
             raise Unsupported('%s(%s)' % (f, ty))
@@ -201,7 +372,7 @@ def expr(e, env, cx):
                     raise Unsupported('argument of %s: %s where %s is expected' % (f, ty, pt))
                 bs += b; ts.append(t)
             tt = cx.fresh()
-            return bs + ['let %s ← %s fuel %s' % (tt, f, ' '.join(ts))], tt, rty
+            return bs + [B(cx, tt, '%s fuel %s' % (f, ' '.join(ts)))], tt, rty
         raise Unsupported('call of ' + f)
     raise Unsupported('expression ' + type(e).__name__)
 
@@ -227,6 +398,12 @@ def cond(e, env, cx):
             return b, '(%s ≠ [])' % t
         if ty == 'bool':
             return b, '(%s = true)' % t
+        if ty == 'header':
+            return b, 'True'               # a 2-tuple is never empty
+        if ty == 'none':
+            return b, 'False'
+        if ty == 'listheader':
+            return b, '(%s ≠ [])' % t
         raise Unsupported('truth value of ' + ty)
     if isinstance(e, ast.Compare):
         items = [e.left] + list(e.comparators)
@@ -352,6 +529,57 @@ def tr(stmts, env, cx, k):
     s, rest = stmts[0], stmts[1:]
     if is_dropped(s):
         return tr(rest, env, cx, k)
+    if isinstance(s, ast.AnnAssign) and isinstance(s.target, ast.Name):
+        if s.value is None:
+            return tr(rest, env, cx, k)          # a bare annotation
+        ann = ast.unparse(s.annotation)
+        cx.empty_list_type = {'list[HeaderTuple]': 'listheader', 'list[int]': 'listint'}.get(ann)
+        try:
+            return tr([ast.Assign(targets=[s.target], value=s.value)] + rest, env, cx, k)
+        finally:
+            cx.empty_list_type = None
+    # self.<sub-object>.<property> = value
+    if isinstance(s, ast.Assign) and len(s.targets) == 1 and isinstance(s.targets[0], ast.Attribute) and _is_self_attr(s.targets[0].value) \
+            and cx.cls and cx.cls['fields'].get(s.targets[0].value.attr, '').startswith('obj:'):
+        ocls = cx.cls['fields'][s.targets[0].value.attr][4:]
+        ext = cx.cls.get('extern', {}).get(ocls, {})
+        prop = s.targets[0].attr
+        if prop not in ext.get('properties', {}):
+            raise Unsupported('assignment to %s.%s' % (ocls, prop))
+        b, t, ty = expr(s.value, env, cx)
+        if ty != ext['properties'][prop]:
+            raise Unsupported('type of %s.%s' % (ocls, prop))
+        lines, tt = sub_call(cx, s.targets[0].value.attr, ocls, prop + '.setter', [t])
+        return b + lines + tr(rest, env, cx, k)
+    # self.<own property> = value
+    if isinstance(s, ast.Assign) and len(s.targets) == 1 and _is_self_attr(s.targets[0]) and cx.cls \
+            and s.targets[0].attr in cx.cls.get('properties', {}):
+        b, t, ty = expr(s.value, env, cx)
+        if ty != cx.cls['properties'][s.targets[0].attr]:
+            raise Unsupported('type of property ' + s.targets[0].attr)
+        lines, tt = own_call(cx, s.targets[0].attr + '.setter', [t])
+        return b + lines + tr(rest, env, cx, k)
+    # a, b = <tuple-typed expression>
+    if isinstance(s, ast.Assign) and len(s.targets) == 1 and isinstance(s.targets[0], ast.Tuple) \
+            and all(isinstance(x, ast.Name) for x in s.targets[0].elts) and len(s.targets[0].elts) == 2 \
+            and not (isinstance(s.value, ast.Call) and isinstance(s.value.func, ast.Attribute) and s.value.func.attr == 'pop'):
+        bb, t, ty = expr(s.value, env, cx)
+        if ty.startswith('tuple:') and len(ty[6:].split(',')) == 2:
+            t1, t2 = ty[6:].split(',')
+            a, b_ = [x.id for x in s.targets[0].elts]
+            env2 = dict(env); env2[a] = t1; env2[b_] = t2
+            return bb + ['let %s := %s.1' % (lname(a), t), 'let %s := %s.2' % (lname(b_), t)] + tr(rest, env2, cx, k)
+        if ty != 'entry':
+            raise Unsupported('unpacking of ' + ty)
+        a, b_ = [x.id for x in s.targets[0].elts]
+        env2 = dict(env); env2[a] = 'bytes'; env2[b_] = 'bytes'
+        return bb + ['let %s := %s.1' % (lname(a), t), 'let %s := %s.2' % (lname(b_), t)] + tr(rest, env2, cx, k)
+    # statement calls: self.<sub-object>.<method>(...) / self.<own method>(...)
+    if isinstance(s, ast.Expr) and isinstance(s.value, ast.Call) and isinstance(s.value.func, ast.Attribute) and \
+            ((_is_self_attr(s.value.func.value) and cx.cls and cx.cls['fields'].get(s.value.func.value.attr, '').startswith('obj:')) or
+             (_is_self_attr(s.value.func) and cx.cls and s.value.func.attr in cx.cls['methods'] and cx.cls.get('extern') is not None)):
+        b, t, ty = expr(s.value, env, cx)
+        return b + tr(rest, env, cx, k)
     if isinstance(s, ast.Assign) and len(s.targets) == 1 and _is_self_attr(s.targets[0]):
         attr = s.targets[0].attr
         if not cx.cls or attr not in cx.cls['fields']:
@@ -369,7 +597,7 @@ def tr(stmts, env, cx, k):
             fld = fname_(v.func.value.attr)         # deque.pop(): the right end; IndexError when empty
             tt = cx.fresh()
             env2 = dict(env); env2[a] = 'bytes'; env2[b_] = 'bytes'
-            return ['let (%s, %s_rest) ← Py.popRight self.%s' % (tt, tt, fld), 'let self := { self with %s := %s_rest }' % (fld, tt),
+            return [B(cx, '(%s, %s_rest)' % (tt, tt), 'Py.popRight self.%s' % fld), 'let self := { self with %s := %s_rest }' % (fld, tt),
                     'let %s := %s.1' % (lname(a), tt), 'let %s := %s.2' % (lname(b_), tt)] + tr(rest, env2, cx, k)
         bb, t, ty = expr(v, env, cx)
         if ty != 'entry':
@@ -438,12 +666,17 @@ def tr(stmts, env, cx, k):
     if isinstance(s, ast.Expr) and isinstance(s.value, ast.Call) and isinstance(s.value.func, ast.Attribute) \
             and s.value.func.attr == 'append' and isinstance(s.value.func.value, ast.Name):
         lst = s.value.func.value.id
+        if env.get(lst) == 'listheader' and len(s.value.args) == 1:
+            b, t, ty = expr(s.value.args[0], env, cx)
+            if ty != 'header':
+                raise Unsupported('append of ' + ty)
+            return b + ['let %s := %s ++ [%s]' % (lname(lst), lname(lst), t)] + tr(rest, env, cx, k)
         if env.get(lst) == 'bytes' and len(s.value.args) == 1:          # bytearray.append(int): ValueError outside range(256)
             b, t, ty = expr(s.value.args[0], env, cx)
             if ty != 'int':
                 raise Unsupported('append of ' + ty)
             tt = cx.fresh()
-            return b + ['let %s ← Py.bytesAppend %s %s' % (tt, lname(lst), t), 'let %s := %s' % (lname(lst), tt)] + tr(rest, env, cx, k)
+            return b + [B(cx, tt, 'Py.bytesAppend %s %s' % (lname(lst), t)), 'let %s := %s' % (lname(lst), tt)] + tr(rest, env, cx, k)
         if env.get(lst) != 'listint' or len(s.value.args) != 1:
             raise Unsupported('append on ' + str(env.get(lst)))
         b, t, ty = expr(s.value.args[0], env, cx)
@@ -452,6 +685,10 @@ def tr(stmts, env, cx, k):
         return b + ['let %s := %s ++ [%s]' % (lname(lst), lname(lst), t)] + tr(rest, env, cx, k)
     if isinstance(s, ast.If):
         b, c = cond(s.test, env, cx)
+        if c == 'False' and not isinstance(s.test, ast.Constant):      # decided by the static type of the tested value (None)
+            return b + tr(list(s.orelse) + rest, env, cx, k)
+        if c == 'True' and not isinstance(s.test, ast.Constant):       # … (a tuple: always true)
+            return b + tr(list(s.body) + rest, env, cx, k)
         a = tr(list(s.body) + rest, env, cx, k)
         o = tr(list(s.orelse) + rest, env, cx, k)
         return b + ['if %s then do' % c] + ind(a) + ['else do'] + ind(o)
@@ -467,7 +704,7 @@ def tr(stmts, env, cx, k):
                     continue          # a message string built earlier (opaque; its formatting was bound where it was built)
                 b, t, ty = expr(a, env, cx)
                 bs += b
-        return bs + ['.error .%s' % EXC[nm]]
+        return bs + [ERR(cx, EXC[nm])]
     if isinstance(s, ast.Return):
         if not k.ret_ok:
             raise Unsupported('return inside a loop or a try block')
@@ -487,7 +724,7 @@ def tr(stmts, env, cx, k):
         cx.nloop += 1
         lf = '%s.while%d' % (cx.fname, cx.nloop)
         occurring = set(names_in(s))
-        params = [v for v in env if v in occurring]
+        params = [v for v in env if v in occurring or (v == 'self' and getattr(cx, 'method', False))]
         assigned = assigned_in(s.body)
         rets = [v for v in params if v in assigned]
         msgs = message_vars(list(s.body))
@@ -512,8 +749,8 @@ def tr(stmts, env, cx, k):
                 raise Unsupported('partial operation in a loop condition')
             inner = ['if %s then do' % c] + ind(body) + ['else', '  .ok %s' % tuple_text(rets)]
         rty = ' × '.join(lean_t(env[v]) for v in rets) if rets else 'Unit'
-        sig = 'def %s : Nat → %s → R (%s)' % (lf, ' → '.join(lean_t(env[p]) for p in params), rty)
-        txt = [sig, '  | 0, %s => .error .nonTermination' % ', '.join('_' for _ in params),
+        sig = 'def %s : Nat → %s → %s (%s)' % (lf, ' → '.join(lean_t(env[p]) for p in params), MON(cx), rty)
+        txt = [sig, '  | 0, %s => %s' % (', '.join(('self' if (p == 'self' and getattr(cx, 'method', False)) else '_') for p in params), ERR(cx, 'nonTermination')),
                '  | fuel + 1, %s => do' % ', '.join(lname(p) for p in params)] + ind(inner, 4)
         cx.loops.append('\n'.join(txt))
         pat = tuple_text(rets) if rets else '_'
@@ -544,7 +781,7 @@ def tr(stmts, env, cx, k):
         envl = dict(env); envl[var] = 'int'
         body = tr(list(s.body), envl, cx, kl)
         rty = ' × '.join(lean_t(env[v]) for v in rets) if rets else 'Unit'
-        sig = 'def %s : List UInt8 → %s → R (%s)' % (lf, ' → '.join(lean_t(env[p]) for p in params), rty)
+        sig = 'def %s : List UInt8 → %s → %s (%s)' % (lf, ' → '.join(lean_t(env[p]) for p in params), MON(cx), rty)
         txt = [sig, '  | [], %s => .ok %s' % (', '.join(lname(p) for p in params), tuple_text(rets) if rets else '()'),
                '  | it_head :: it_rest, %s => do' % ', '.join(lname(p) for p in params),
                '    let %s := (it_head.toNat : Int)' % lname(var)] + ind(body, 4)
@@ -557,6 +794,11 @@ def tr(stmts, env, cx, k):
         h = s.handlers[0]
         if not isinstance(h.type, ast.Name) or h.type.id not in EXC:
             raise Unsupported('except clause')
+        if not rest and k.ret_ok and s.body and isinstance(s.body[-1], ast.Return) and getattr(cx, 'method', False):
+            # `try: …; return e  except X: …` as the last statement of a method
+            body = tr(list(s.body), env, cx, K(fall=lambda env_: [ret_ok(env_, '()', cx)], ret_ok=True))
+            handler = tr(list(h.body), env, cx, K(fall=lambda env_: [ret_ok(env_, '()', cx)], ret_ok=True))
+            return ['Py.tryExceptS (do'] + ind(body, 4) + ['  ) .%s (fun self => do' % EXC[h.type.id]] + ind(handler, 4) + ['  )']
         top = toplevel_assigned(s.body)
         allv = assigned_in(s.body)
         vs = [v for v in env if v in allv] + [v for v in top if v not in env]
@@ -578,7 +820,10 @@ def tr(stmts, env, cx, k):
                 env2[v] = learn[v]
         kh = K(fall=lambda env_: ['.ok %s' % tuple_text(vs)], brk=None, ret_ok=False)
         handler = tr(list(h.body), env, cx, kh)
-        out = ['let %s ← Py.tryExcept (do' % tuple_text(vs)] + ind(body, 4) + ['  ) .%s (do' % EXC[h.type.id]] + ind(handler, 4) + ['  )']
+        if getattr(cx, 'method', False):
+            out = ['let %s ← Py.tryExceptS (do' % tuple_text(vs)] + ind(body, 4) + ['  ) .%s (fun self => do' % EXC[h.type.id]] + ind(handler, 4) + ['  )']
+        else:
+            out = ['let %s ← Py.tryExcept (do' % tuple_text(vs)] + ind(body, 4) + ['  ) .%s (do' % EXC[h.type.id]] + ind(handler, 4) + ['  )']
         return out + tr(rest, env2, cx, k)
     raise Unsupported('statement ' + type(s).__name__)
 
@@ -589,25 +834,26 @@ def lname_m(n):
 
 def translate_function(fn, consts, cls=None, funcs=None, lean_name=None):
     cx = Ctx(lean_name or fn.name, consts, cls, funcs)
+    cx.method = bool(cls is not None and fn.args.args and fn.args.args[0].arg == 'self')
     env = {}
     for a in fn.args.args:
         if a.arg == 'self' and cls is not None:
             env['self'] = 'self:' + cls['name']
             continue
         ann = ast.unparse(a.annotation) if a.annotation is not None else ''
-        ty = {'int': 'int', 'bytes': 'bytes', 'bytearray': 'bytes', 'bytes | bytearray': 'bytes', 'memoryview': 'bytes', 'bytes | bytearray | None': 'bytes', 'bytes | None': 'bytes'}.get(ann)
+        ty = {'HeaderWeaklyTyped': 'header', 'bool': 'bool', 'HeaderTuple': 'header', 'int': 'int', 'bytes': 'bytes', 'bytearray': 'bytes', 'bytes | bytearray': 'bytes', 'memoryview': 'bytes', 'bytes | bytearray | None': 'bytes', 'bytes | None': 'bytes'}.get(ann)
         if ty is None:
             raise Unsupported('parameter %s: %s' % (a.arg, ann))
         env[a.arg] = ty
     ret = ast.unparse(fn.returns) if fn.returns is not None else ''
-    rkind = {'bytearray': 'bytes', 'bytes': 'bytes', 'int': 'int', 'tuple[int, int]': 'tuple:int,int', 'None': 'unit', 'tuple[bytes, bytes]': 'entry'}.get(ret)
+    rkind = {'tuple[HeaderTuple, int]': 'tuple:header,int', 'Iterable[HeaderTuple]': 'listheader', 'HeaderTuple': 'header', 'bytearray': 'bytes', 'bytes': 'bytes', 'int': 'int', 'tuple[int, int]': 'tuple:int,int', 'None': 'unit', 'tuple[bytes, bytes]': 'entry'}.get(ret)
     if rkind is None:
         raise Unsupported('return annotation %s' % ret)
-    rty = 'Int × Int' if rkind == 'tuple:int,int' else LEAN_T[rkind]
+    rty = lean_t(rkind)
     if 'self' in env:
         rty = '%s × %s' % (cls['name'], rty)
     body = tr(list(fn.body), env, cx, K(fall=lambda env_: [ret_ok(env_, '()', cx)], ret_ok=True))
-    sig = 'def %s (fuel : Nat) %s : R (%s) := do' % (cx.fname, ' '.join('(%s : %s)' % (lname(a), lean_t(t)) for a, t in env.items()), rty)
+    sig = 'def %s (fuel : Nat) %s : %s (%s) := do' % (cx.fname, ' '.join('(%s : %s)' % (lname(a), lean_t(t)) for a, t in env.items()), MON(cx), rty)
     cx.ptys = [t for a, t in env.items() if a != 'self']
     cx.rkind = rkind
     return cx, '\n\n'.join(cx.loops + ['\n'.join([sig] + ind(body))])
@@ -664,7 +910,7 @@ def translate_unit(repo, unit):
     defs = {n.name: n for n in tree.body if isinstance(n, ast.FunctionDef)}
     parts, report = [], {'functions': {}, 'constants': {}}
     const_lines, seen = [], set()
-    funcs = {}
+    funcs = dict(unit.get('extern_funcs', {}))
 
     def note_consts(cx):
         for c in cx.used_consts:
@@ -697,11 +943,25 @@ def translate_unit(repo, unit):
         for k, v in rt['cls'].items():
             (ty, val), = v.items()
             cconst[k] = (ty, val)
-        cls = {'name': cname, 'fields': {}, 'consts': cconst, 'methods': {}, 'used': []}
+        cls = {'name': cname, 'fields': {}, 'consts': cconst, 'methods': {}, 'used': [], 'method_params': {}}
+        if 'extern' in unit:
+            cls['extern'] = unit['extern']
         # fields and their initial values
         finit = class_fields(cdef)
         cx0 = Ctx(cname + '.new', consts, cls, funcs)
         init_vals = []
+        new_params = ''
+        if 'init' in unit:
+            # a constructor with parameters / sub-objects: the expected statements are configured and compared with the source
+            got = {a: ast.unparse(v) for a, v in finit.items()}
+            want = {a: src for a, (ty, src, lean) in unit['init'].items()}
+            if got != want:
+                raise Unsupported('__init__ of %s assigns %s' % (cname, got))
+            for a, (ty, src, lean) in unit['init'].items():
+                cls['fields'][a] = ty
+                init_vals.append((a, ty, lean))
+            new_params = unit.get('init_params', '')
+            finit = {}
         for attr, val in finit.items():
             if isinstance(val, ast.Call) and isinstance(val.func, ast.Name) and val.func.id == 'deque' and not val.args:
                 ty, t = 'listentry', '[]'
@@ -711,6 +971,7 @@ def translate_unit(repo, unit):
                     raise Unsupported('initial value of self.%s' % attr)
             cls['fields'][attr] = ty
             init_vals.append((attr, ty, t))
+        cls['properties'] = {}
         mdefs = {}
         for n in cdef.body:
             if isinstance(n, ast.FunctionDef):
@@ -725,15 +986,18 @@ def translate_unit(repo, unit):
         for m in unit.get('methods', []):
             if m not in mdefs:
                 raise Unsupported('method %s.%s not found' % (cname, m))
-            lean = '%s.%s' % (cname, lname_m(m).replace('.setter', '_set'))
+            lean = '%s.%s' % (cname, lname_m(m).replace('.setter', '_set').replace('.getter', '_get'))
             cx, text = translate_function(mdefs[m], consts, cls, funcs, lean_name=lean)
             cls['methods'][m] = (cx.ptys, cx.rkind)
+            cls['method_params'][m] = [a.arg for a in mdefs[m].args.args if a.arg != 'self']
+            if m.endswith('.getter'):
+                cls['properties'][m[:-7]] = cx.rkind
             mparts.append(text)
             report['functions'][cname + '.' + m] = {'loops': cx.nloop, 'lines': text.count('\n') + 1}
             note_consts(cx)
-        struct_lines = ['structure %s where' % cname] + ['  %s : %s' % (fname_(a), LEAN_T[ty]) for a, ty, _ in init_vals] + \
+        struct_lines = ['structure %s where' % cname] + ['  %s : %s' % (fname_(a), lean_t(ty)) for a, ty, _ in init_vals] + \
                        ['deriving Repr, DecidableEq', ''] + \
-                       ['/-- `%s()` -/' % cname, 'def %s.new : %s := { %s }' % (cname, cname, ', '.join('%s := %s' % (fname_(a), t) for a, _, t in init_vals)), '']
+                       ['/-- `%s(…)` -/' % cname, 'def %s.new %s: %s := { %s }' % (cname, new_params, cname, ', '.join('%s := %s' % (fname_(a), t) for a, _, t in init_vals)), '']
         for k in cls['used']:
             ty, val = cconst[k]
             report['constants']['%s.%s' % (cname, k)] = val if ty != 'listentry' else '%d entries' % len(val)
@@ -754,12 +1018,26 @@ def translate_unit(repo, unit):
     return '\n'.join(head_ + const_lines + ['', body, '', 'end Src', '']), report
 
 
+HT_EXTERN = {'HeaderTable': {'methods': {'get_by_index': (['int'], 'entry'), 'add': (['bytes', 'bytes'], 'unit')},
+                           'properties': {'maxsize': 'int'}}}
+
 UNITS = {
+    'SrcDec': {'module': 'hpack.hpack', 'rel': 'hpack/hpack.py', 'functions': ['_unicode_if_needed'], 'cls': 'Decoder',
+               'methods': ['header_table_size.getter', 'header_table_size.setter', '_assert_valid_table_size', '_update_encoding_context',
+                           '_decode_indexed', '_decode_literal', '_decode_literal_no_index', '_decode_literal_index', 'decode'],
+               'imports': ['HpackVerif.Generated.SrcInt', 'HpackVerif.Generated.SrcHuff', 'HpackVerif.Generated.SrcTable', 'HpackVerif.Impl.Utf8'],
+               'extern_funcs': {'decode_integer': (['bytes', 'int'], 'tuple:int,int'), 'decode_huffman': (['bytes'], 'bytes'),
+                                'table_entry_size': (['bytes', 'bytes'], 'int')},
+               'extern': HT_EXTERN,
+               'init': {'header_table': ('obj:HeaderTable', 'HeaderTable()', 'HeaderTable.new'),
+                        'max_header_list_size': ('int', 'max_header_list_size', 'max_header_list_size'),
+                        'max_allowed_table_size': ('int', 'self.header_table.maxsize', 'HeaderTable.new.f_maxsize')},
+               'init_params': '(max_header_list_size : Int) '},
     'SrcHuff': {'module': 'hpack.huffman_table', 'rel': 'hpack/huffman_table.py', 'functions': ['decode_huffman'],
                 'triple_tables': {'HUFFMAN_TABLE': 'Gen.huffTable'}, 'imports': ['HpackVerif.Generated.Table']},
     'SrcInt': {'module': 'hpack.hpack', 'rel': 'hpack/hpack.py', 'functions': ['encode_integer', 'decode_integer']},
     'SrcTable': {'module': 'hpack.table', 'rel': 'hpack/table.py', 'functions': ['table_entry_size'], 'cls': 'HeaderTable',
-                 'methods': ['get_by_index', '_shrink', 'add', 'maxsize.setter']},
+                 'methods': ['get_by_index', '_shrink', 'add', 'maxsize.getter', 'maxsize.setter']},
 }
 
 
